@@ -104,6 +104,8 @@ def track(ver, case, obs, want):
             acks = [(op[j], op[j + 1]) for j in range(1, len(op) - 1, 2)]
         mismatch_here = False
         for (k, pid) in acks:
+            if k == 6:
+                k = PUBREC                      # a PUBREC carrying a failure reason code
             if not prev_open or closed_expected:
                 continue
             pid %= 65536                       # the harness writes the id as a u16
@@ -148,7 +150,7 @@ def track(ver, case, obs, want):
                 if 14 in want and not peer_early_comp and code in (6, 7):
                     if id_of.get(t) != pid:
                         return "0,141,%d" % i
-        if 14 in want and not peer_early_comp and code in (6, 7) and t in id_of \
+        if (14 in want or 6 in want) and not peer_early_comp and code in (6, 7) and t in id_of \
                 and phase.get(t) in ("receipt_ready", "receipt") and prev_open and not closed_expected and not streaming and prev_tasks.get(t) == 2:
             n_rel = sum(1 for (tag, pid) in wire if tag == PUBREL)
             if n_rel != 1:
